@@ -1,11 +1,23 @@
 /-
   Property C10 — Tree addressing is a bijection and node resolution is order-independent.
-  Property theorems only; helper lemmas live in Tranp/Lemmas/AstPath.lean.
+  Property theorems only; helper lemmas live in Tranp/Lemmas/AstPath.lean (and Tranp/Lemmas/AstPath/*.lean).
+
+  Reading guide. `pathfy t p` is `ASTFinder.full_pathfy` on element lists, `pathfyS` / `fullPathfy` the same on the
+  joined path strings (what the Python builds), `pluckRel` / `pluckS` are `ASTFinder.pluck`, `mkCache` is the
+  `EntryCache` `Nodes.__init__` fills, `nodeBy` is `Nodes.by` threading `NodeResolver.__insts`, `classOf` is the
+  cache-free "first accepting class in registration order". `WfTags t`: every tag of `t` is non-empty and free of
+  `.`, `[`, `]` (decidable; true of all lark rule / terminal names and of `__empty__`).
 -/
 import Tranp.Lemmas.AstPath
 
 namespace Tranp.C10
 open Tranp Tranp.AstPath
+
+/-- sample tree used by the non-vacuity examples: repeated (`a`,`a`), unique (`b`) and empty child tags -/
+def sample : Entry :=
+  .tree ['r'] [.token ['a'] [], .empty, .tree ['a'] [.token ['b'] ['x'], .empty, .empty]]
+
+/-! ## bijection on element paths (all trees, no side condition) -/
 
 /-- Looking a path of `full_pathfy` up returns that very entry — for every tree (repeated, unique and empty tags). -/
 theorem pluck_pathfy (t : Entry) (p : Path) (e : Entry) (h : (p, e) ∈ pathfy t []) :
@@ -13,10 +25,195 @@ theorem pluck_pathfy (t : Entry) (p : Path) (e : Entry) (h : (p, e) ∈ pathfy t
   obtain ⟨r, hq, hr⟩ := pathfy_sound t [] p e h
   simp at hq; subst hq; exact hr
 
-/-- non-vacuity: a tree with repeated, unique and empty child tags has 5 addressed entries -/
+example : ((pathfy sample []).length == 7 && (pathfy sample []).all (fun pe => pluckRel pe.1 sample == some pe.2)) = true := by
+  decide +kernel
+
+/-- The paths of `full_pathfy` are pairwise distinct: no entry position shares its path with another. -/
+theorem paths_nodup (t : Entry) : ((pathfy t []).map (·.1)).Nodup :=
+  pathfy_nodup t []
+
+example : ((pathfy sample []).map (·.1)).length = 7 := by decide +kernel
+
+/-- There are exactly as many paths as entry positions (with `paths_nodup` and `pluck_pathfy`: a bijection). -/
+theorem count (t : Entry) : (pathfy t []).length = size t :=
+  pathfy_length t []
+
+example : size sample = 7 := by decide +kernel
+
+/-! ## the string codec -/
+
+/-- `int(str(n)) = n` for the index part of a path element. -/
+theorem codec_int (n : Nat) : Str.decToNat? (Str.natToDec n) = some n :=
+  StrCodec.decToNat_natToDec n
+
+example : Str.natToDec 120 = ['1', '2', '0'] := by decide +kernel
+
+/-- `EntryPath.__break_tag` recovers tag and index (`-1` = none) of an encoded element with a well-formed tag. -/
+theorem codec_elem (el : Elem) (h : WfTag el.tag) : breakTag (encodeElem el) = .ok (el.tag, el.idxInt) :=
+  breakTag_encodeElem el h
+
+example : WfTag ['a', 'b'] ∧ encodeElem ⟨['a', 'b'], some 12⟩ = ['a', 'b', '[', '1', '2', ']'] := by decide +kernel
+
+/-- `DSN.elements(DSN.join(...))` gives the encoded elements back: the joined string is a faithful encoding of the
+    element list for well-formed tags. -/
+theorem codec_path (p : Path) (h : WfPath p) : dsnElements (encodePath p) = p.map encodeElem :=
+  dsnElements_encodePath p h
+
+/-- Distinct well-formed element paths have distinct strings (the encoder can be decoded). -/
+theorem codec_inj (p q : Path) (hp : WfPath p) (hq : WfPath q) (h : encodePath p = encodePath q) : p = q :=
+  encodePath_inj p q hp hq h
+
+example : WfPath [⟨['r'], none⟩, ⟨['a'], some 2⟩] ∧
+    encodePath [⟨['r'], none⟩, ⟨['a'], some 2⟩] = ['r', '.', 'a', '[', '2', ']'] := by
+  refine ⟨?_, by decide +kernel⟩
+  intro el hel
+  simp at hel
+  rcases hel with rfl | rfl <;> decide
+
+/-! ## bijection on the path strings the Python builds -/
+
+example : WfTags sample := by decide +kernel
+
+/-- The insertions `full_pathfy` performs are the abstract enumeration with every path encoded. -/
+theorem pathfyS_encoded (t : Entry) (h : WfTags t) :
+    pathfyS t t.name = (pathfy t [⟨t.name, none⟩]).map (fun pe => (encodePath pe.1, pe.2)) :=
+  pathfyS_root t h
+
+/-- The string keys are pairwise distinct … -/
+theorem keys_nodup (t : Entry) (h : WfTags t) : ((fullPathfy t).map (·.1)).Nodup :=
+  fullPathfy_keys_nodup t h
+
+/-- … hence the Python dict loses no insertion: `full_pathfy(t)` is exactly that list, in pre-order. -/
+theorem fullPathfy_encoded (t : Entry) (h : WfTags t) :
+    fullPathfy t = (pathfy t [⟨t.name, none⟩]).map (fun pe => (encodePath pe.1, pe.2)) :=
+  fullPathfy_eq t h
+
+/-- As many string paths as entry positions. -/
+theorem countS (t : Entry) (h : WfTags t) : (fullPathfy t).length = size t :=
+  fullPathfy_length t h
+
+/-- Headline: `pluck(t, p) is e` for every `(p, e)` of `full_pathfy(t)`, on the strings the Python builds. -/
+theorem pluckS_pathfyS (t : Entry) (h : WfTags t) (s : Str) (e : Entry) (hm : (s, e) ∈ fullPathfy t) :
+    pluckS t s = .ok e :=
+  pluckS_of_mem t h s e hm
+
+example : (fullPathfy sample).map (·.1) =
+    [['r'], ['r', '.', 'a', '[', '0', ']'], "r.__empty__".toList, ['r', '.', 'a', '[', '2', ']'],
+     "r.a[2].b".toList, "r.a[2].__empty__[1]".toList, "r.a[2].__empty__[2]".toList] := by
+  decide +kernel
+
+/-! ## ids follow document order -/
+
+/-- `EntryCache.index_of(p)` is the pre-order (document order) rank of `p`. -/
+theorem ids_preorder (t : Entry) (h : WfTags t) (i : Nat) (s : Str) (e : Entry)
+    (hi : (fullPathfy t)[i]? = some (s, e)) : (mkCache t).indexOf s = (i : Int) :=
+  mkCache_indexOf t h i s e hi
+
+/-- The cache returns the enumerated entry for each enumerated path. -/
+theorem cache_by (t : Entry) (h : WfTags t) (s : Str) (e : Entry) (hm : (s, e) ∈ fullPathfy t) :
+    (mkCache t).by_ s = .ok e :=
+  mkCache_by t h s e hm
+
+example : (mkCache sample).indexOf ['r', '.', 'a', '[', '2', ']'] = 3 := by decide +kernel
+
+/-! ## node resolution is order-independent -/
+
+/-- For every world (tree, cache, class table with arbitrary features) and every instance cache reachable by any
+    sequence of earlier successful `Nodes.by` resolutions (`children`, `siblings`, `parent`, `ancestor` resolve through
+    `Nodes.by` as well), the class returned for `p` is the cache-free choice `classOf`. -/
+theorem resolve_order (w : World) (insts : List (Str × Str)) (hr : Reachable w insts)
+    (p : Str) (e : Entry) (hb : w.cache.by_ p = .ok e) :
+    (nodeBy w insts p).map (·.1) = classOf w e.name p :=
+  nodeBy_eq_classOf w insts p e (reachable_ok w insts hr) hb
+
+/-- The same for an explicit list of earlier queries (failing ones included), starting from the empty cache. -/
+theorem resolve_order_queries (w : World) (qs : List Str) (p : Str) (e : Entry) (hb : w.cache.by_ p = .ok e) :
+    (nodeBy w (runQueries w [] qs) p).map (·.1) = classOf w e.name p :=
+  resolve_order w _ (runQueries_reachable w [] qs .init) p e hb
+
+/-- sample world: tag `a` resolves to `Idx` when the path element carries an index, else to `Plain` -/
+def sampleWorld : World :=
+  { root := sample, cache := mkCache sample,
+    table := { ctors := [(['a'], [⟨['I', 'd', 'x'], .hasIndex⟩, ⟨['P'], .always⟩]), (['r'], [⟨['R'], .childCountGe 3⟩])],
+               fallback := none } }
+
 example :
-    let t : Entry := .tree ['r'] [.token ['a'] [], .empty, .tree ['a'] [.token ['b'] ['x']]]
-    ((pathfy t []).length == 5 && (pathfy t []).all (fun pe => pluckRel pe.1 t == some pe.2)) = true := by
+    let p : Str := ['r', '.', 'a', '[', '2', ']']
+    let qs : List Str := [['r'], ['n', 'o'], p, ['r', '.', 'a', '[', '0', ']'], p]
+    (sampleWorld.cache.by_ p).toOption.isSome = true ∧
+    ((nodeBy sampleWorld (runQueries sampleWorld [] qs) p).map (·.1)).toOption = some ['I', 'd', 'x'] ∧
+    (runQueries sampleWorld [] qs).length = 3 := by
+  decide +kernel
+
+/-! ## children / parent / siblings agree with the tree and with each other
+
+`w.cache = mkCache t` is how `Nodes.__init__` builds its cache; the table of `w` is arbitrary. The results are the
+path lists the real `Nodes.children` / `parent` / `siblings` then resolve through `Nodes.by` (see `resolve_order`). -/
+
+/-- `Nodes.children(p)`: exactly the paths `p ++ [element of child i]`, in child order, for the entry `x` at `p`
+    (none for tokens and empty entries). -/
+theorem children_agree (t : Entry) (h : WfTags t) (w : World) (hw : w.cache = mkCache t)
+    (q : Path) (x : Entry) (hq : (q, x) ∈ pathfy t [⟨t.name, none⟩]) :
+    childrenPaths w (encodePath q) = .ok ((childElems x).map (fun el => encodePath (q ++ [el]))) :=
+  childrenPaths_mkCache t h w hw q x hq
+
+/-- … where the `i`-th such element is the one `full_pathfy` gave child `i`, and the cache holds child `i` there. -/
+theorem children_entries (t : Entry) (h : WfTags t) (q : Path) (tag : Str) (cs : List Entry)
+    (hq : (q, .tree tag cs) ∈ pathfy t [⟨t.name, none⟩]) (i : Nat) :
+    (childElems (.tree tag cs))[i]? = cs[i]?.map (fun c => elemFor cs i c) ∧
+    ∀ c, cs[i]? = some c → (mkCache t).by_ (encodePath (q ++ [elemFor cs i c])) = .ok c :=
+  ⟨childElems_getElem? tag cs i, fun c hc => child_entry t h q tag cs hq i c hc⟩
+
+example : ((childrenPaths sampleWorld ['r']).toOption = some [['r', '.', 'a', '[', '0', ']'], "r.__empty__".toList, ['r', '.', 'a', '[', '2', ']']]) := by
+  decide +kernel
+
+/-- `Nodes.parent(p)`: the nearest proper prefix of `p` whose last tag is resolvable (`nearestRes` walks the reversed
+    prefix), `Errors.NodeNotFound` when there is none. -/
+theorem parent_nearest (t : Entry) (h : WfTags t) (w : World) (hw : w.cache = mkCache t)
+    (q : Path) (x : Entry) (hq : (q, x) ∈ pathfy t [⟨t.name, none⟩]) :
+    parentPath w (encodePath q) =
+      match nearestRes w.table.canResolve q.dropLast.reverse with
+      | some r => .ok (encodePath r.reverse)
+      | none => .error .nodeNotFound :=
+  parentPath_mkCache t h w hw q x hq
+
+/-- children and parent agree: the parent of every child path of `p` is `p`, when `p`'s own tag is resolvable. -/
+theorem parent_of_child (t : Entry) (h : WfTags t) (w : World) (hw : w.cache = mkCache t)
+    (q1 : Path) (l : Elem) (x : Entry) (hq : (q1 ++ [l], x) ∈ pathfy t [⟨t.name, none⟩])
+    (el : Elem) (hel : el ∈ childElems x) (hres : w.table.canResolve l.tag = true) :
+    parentPath w (encodePath (q1 ++ [l] ++ [el])) = .ok (encodePath (q1 ++ [l])) :=
+  parentPath_child t h w hw q1 l x hq el hel hres
+
+example : (parentPath sampleWorld "r.a[2].b".toList).toOption = some ['r', '.', 'a', '[', '2', ']'] ∧
+    (parentPath sampleWorld ['r']).toOption = none := by
+  decide +kernel
+
+/-- `Nodes.siblings(p)` = `Nodes.children` of `p` without its last element; the root has none. -/
+theorem siblings_agree (t : Entry) (h : WfTags t) (w : World)
+    (q : Path) (x : Entry) (hq : (q, x) ∈ pathfy t [⟨t.name, none⟩]) (hd : q.dropLast ≠ []) :
+    siblingsPaths w (encodePath q) = childrenPaths w (encodePath q.dropLast) :=
+  siblingsPaths_mkCache t h w q x hq hd
+
+theorem siblings_root (t : Entry) (h : WfTags t) (w : World) :
+    siblingsPaths w t.name = .error .nodeNotFound := by
+  rw [← encodePath_root t h]; exact siblingsPaths_root t h w
+
+example : (siblingsPaths sampleWorld "r.a[2].b".toList).toOption =
+    some ["r.a[2].b".toList, "r.a[2].__empty__[1]".toList, "r.a[2].__empty__[2]".toList] := by
+  decide +kernel
+
+/-- `Nodes.ancestor(p, tag)`: the prefix of `p` ending at the nearest element (from the end, `p`'s own last element
+    included, as in the Python) whose tag is `tag`; `ValueError` (`list.index`) when no element has the tag. -/
+theorem ancestor_nearest (t : Entry) (h : WfTags t) (w : World) (hw : w.cache = mkCache t)
+    (q : Path) (x : Entry) (hq : (q, x) ∈ pathfy t [⟨t.name, none⟩]) (tag : Str) :
+    ancestorPath w (encodePath q) tag =
+      match nearestRes (· == tag) q.reverse with
+      | some r => .ok (encodePath r.reverse)
+      | none => .error .valueError :=
+  ancestorPath_mkCache t h w hw q x hq tag
+
+example : (ancestorPath sampleWorld "r.a[2].b".toList ['a']).toOption = some ['r', '.', 'a', '[', '2', ']'] ∧
+    (ancestorPath sampleWorld "r.a[2].b".toList ['z']).toOption = none := by
   decide +kernel
 
 end Tranp.C10
